@@ -165,6 +165,8 @@ def check_network(ctx, A, r, kind, terms=None):
     key = {"resistances": np.asarray(r).tolist()}
     ctx.count(key, nontrivial=n >= 3)
     ctx.stat("graph:" + kind)
+    ctx.sample({"n": n, "graph": kind,
+                "resistances": np.asarray(r).tolist()[:3]})
     ctx.stat("n=%d" % min(n, 10))
     tags = {"graph": kind}
     try:
